@@ -117,4 +117,35 @@ def applyOp (st : St) : Op → St
 
 def run (ops : List Op) : St := ops.foldl applyOp {}
 
+/-! ### atomicity of `addLocation`
+
+`addLocation` takes the write lock FIRST and releases it on return: the presence check and the append
+are one atomic step, which is what `addLocation` above models (a concurrent execution of several update
+streams is some interleaving = some sequence of such steps).  For contrast, the SPLIT model below
+performs the presence check and the append as two separately scheduled steps (what a check under
+`RLock` followed by an append under a later `Lock` would be); it is NOT what the code does — the bridge
+theorems in Props/C35.lean pin the source of `addLocation` so that such a change breaks an obligation. -/
+
+inductive SStep where
+  | check (tid : Nat) (loc : Loc)      -- thread `tid` looks whether loc.url is listed and remembers the answer
+  | append (tid : Nat) (loc : Loc)     -- thread `tid` appends unless it remembered "listed"
+deriving Repr
+
+/-- one volume: the listed locations and, per thread, the remembered answer -/
+structure SSt where
+  view : List Loc := []
+  seen : List (Nat × Bool) := []
+
+def splitStep (st : SSt) : SStep → SSt
+  | .check t loc => { st with seen := (t, hasUrl st.view loc.url) :: st.seen }
+  | .append t loc =>
+    match st.seen.lookup t with
+    | some true => st
+    | _ => { st with view := st.view ++ [loc] }
+
+def splitRun (steps : List SStep) : SSt := steps.foldl splitStep {}
+
+/-- the atomic step on one volume's list -/
+def atomicAdd (l : List Loc) (loc : Loc) : List Loc := if hasUrl l loc.url then l else l ++ [loc]
+
 end SwV.Model.C35
